@@ -34,7 +34,7 @@ var pureFuncs = map[string]bool{
 	"github.com/ChainSafe/gossamer/lib/common.Twox128Hash": true, "github.com/ChainSafe/gossamer/lib/common.Twox64": true,
 	"github.com/ChainSafe/gossamer/lib/common.Sha256": true, "github.com/ChainSafe/gossamer/lib/common.MustBlake2b8": true,
 	"(github.com/ChainSafe/gossamer/dot/types.Extrinsic).Hash": true,
-	"bytes.Compare": true, "bytes.Contains": true, "bytes.Index": true, "bytes.IndexByte": true,
+	"bytes.Compare": true, "bytes.Join": true, "bytes.Contains": true, "bytes.Index": true, "bytes.IndexByte": true,
 	"strings.HasPrefix": true, "strings.HasSuffix": true, "strings.Contains": true, "strings.TrimPrefix": true,
 	"encoding/hex.EncodeToString": true, "(*math/big.Int).Cmp": true, "(*math/big.Int).Sign": true,
 	"(*math/big.Int).Bytes": true, "(*math/big.Int).Uint64": true, "(*math/big.Int).IsUint64": true, "(*math/big.Int).Int64": true,
